@@ -29,6 +29,11 @@ fn main() {
     if args[1] == "realnode" {
         wire::realnode_main(&args[2..]);
     }
+    if args[1] == "wire" && args[2] == "rejoin" {
+        let code = wire::rejoin_demo();
+        world::cleanup_scratch();
+        std::process::exit(code);
+    }
     if args[1] == "wire" {
         let n: usize = args[2].parse().unwrap_or(2);
         let strategy: &'static str = match args.get(3).map(|s| s.as_str()) {
